@@ -1,6 +1,7 @@
 """C16 - curve fitting is pure, deterministic and returns the best candidate it tried (DESIGN 3, C16)"""
 import ast
 from .common import *
+from ..symex import ContinueLoop
 from ..contracts import process as CP
 from ..symex import Result_, INF, explore_thunk
 
@@ -32,7 +33,9 @@ def minimize_contract(ex, b):
     if n is None: raise Unsupported("minimize x0 %r" % (x0,))
     idn = len(ex.minimize_calls)
     x = Seq(n, lambda i: app('opt.x', lift(idn), lift(i)), tag=('opt.x', idn))
-    return Result_(dict(x=x))
+    # `success` is whatever the optimiser reports: an unconstrained boolean per call
+    from ..ir import bvar as _bv
+    return Result_(dict(x=x, success=_bv('opt.success.%d' % idn), fun=app('opt.fun', lift(idn))))
 
 
 def from_array_contract(ex, b):
@@ -57,7 +60,7 @@ def loop_bodies(fdef):
         names.append(body[0].target.id); body = body[0].body
     for st in body:
         for n in ast.walk(st):
-            if isinstance(n, (ast.For, ast.While, ast.Break, ast.Continue)): raise Unsupported("nested control flow in the search loop body", n)
+            if isinstance(n, (ast.For, ast.While, ast.Break)): raise Unsupported("nested control flow in the search loop body", n)
     return pre, body, names, post, loop
 
 
@@ -148,7 +151,8 @@ def obligations(cx):
                     env[BEST] = Obj('PervaporationFunction', dict(n=None, m=None, alpha=var('best.alpha'), a=Opaque('a'), b=Opaque('b')), tag=('best',))
                     env[BLOSS] = bl
                 for nm_ in names: env[nm_] = var(nm_ + '_try', 'I')
-                ex.block(body, env)
+                try: ex.block(body, env)
+                except ContinueLoop: pass          # `continue`: the iteration ends here
                 return env
             # initial state
             ps0 = cx.explore(lambda ex: (lambda env: (ex.block(pre, env), env)[1])(ex.bind(fbf, [], kw)), contracts=ctr2, pre=[nsym >= 1, var('n_user', 'I') >= 0, var('m_user', 'I') >= 0])
@@ -220,7 +224,8 @@ def obligations(cx):
             if havoc:
                 env[VBEST] = Seq(lift(5), lambda i: app('bf', lift(i)), tag=('best_fit',)); env[VERR] = err
             env[names[0]] = 'SomeMethod'
-            ex.block(body, env)
+            try: ex.block(body, env)
+            except ContinueLoop: pass              # `continue`: the iteration ends here
             return env
         ps0 = cx.explore(lambda ex: (lambda env: (ex.block(pre, env), env)[1])(ex.bind(fv, [], dict(data=vdata, method=meth))), contracts=ctr3)
         for pi, r in enumerate(returns(ps0)):
